@@ -152,6 +152,7 @@ func EmitCallClosure(c Value, params []Value) (insts []wat.Inst) {
 	insts = append(insts, closure.ExtractByName("fn_index").EmitPush()...)
 
 	insts = append(insts, closure.ExtractByName("d").(*aRef).ExtractByName("d").EmitPushNoRetain()...)
+	VerifEvent("use", currentModule)
 	insts = append(insts, currentModule.FindGlobalByName("$wa.runtime.closure_data").EmitPop()...)
 
 	insts = append(insts, wat.NewInstCallIndirect(closure.typ._fnTypeName))
